@@ -211,14 +211,16 @@ theorem intOfIndex_iff (k : Value) : (intOfIndex k).isSome = (kindOfV k).intLike
 
 theorem dictIndex_ne (d : KV) (k : Value) :
     (if hashable k then (match Seq.dGet d k with | some v => (.ok (.val v) : R Obj) | none => .error .key)
-     else .error .type) ≠ .error .noFunction := by
+     else .error (keyErr k)) ≠ .error .noFunction := by
   split
   · split <;> simp
-  · simp
+  · unfold keyErr; split <;> simp
 
 theorem dictIndexD_ne (d : KV) (k dflt : Value) :
-    (if hashable k then (.ok (.val ((Seq.dGet d k).getD dflt)) : R Obj) else .error .type) ≠ .error .noFunction := by
-  split <;> simp
+    (if hashable k then (.ok (.val ((Seq.dGet d k).getD dflt)) : R Obj) else .error (keyErr k)) ≠ .error .noFunction := by
+  split
+  · simp
+  · unfold keyErr; split <;> simp
 
 /-- `#indexer`: NoMatchingFunction exactly where the table has no overload -/
 theorem indexer_dispatch (r : Obj) (vs : VL) :
